@@ -27,9 +27,9 @@ var c02Names = []string{
 	"_sip._tcp.lb.example.com", "xn--e1afmkfd.xn--p1ai", "cdn.xn--80ak6aa92e.com", strings.Repeat("w", 63) + ".tracker.net", "UPPER_case.Ads.Example.ORG",
 }
 
-var c02V4 = []string{"1.2.3.4", "93.184.216.34", "10.0.0.5", "11.2.3.45", "0.0.0.1", "127.0.0.255", "192.0.2.1"}
+var c02V4 = []string{"1.2.3.4", "93.184.216.34", "10.0.0.5", "11.2.3.45", "0.0.0.1", "127.0.0.255", "192.0.2.1", "0.0.0.0", "255.255.255.255"}
 
-var c02V6 = []string{"2001:db8::1", "::1", "1234::cdef", "2001:db8:0:1::", "::ffff:1.2.3.4", "fe80::1"}
+var c02V6 = []string{"2001:db8::1", "::1", "1234::cdef", "2001:db8:0:1::", "::ffff:1.2.3.4", "fe80::1", "::"}
 
 func c02IP(s string) net.IP { return net.IP(netip.MustParseAddr(s).AsSlice()) }
 
@@ -42,13 +42,22 @@ func c02GenAnswer(r *rand.Rand, c *c01Case) (revealed []string) {
 	c.urcode = dns.RcodeSuccess
 	owner := c.qname
 	var rrs []dns.RR
-	for i := []int{0, 0, 1, 1, 1, 2, 3, 6}[r.IntN(8)]; i > 0; i-- {
+	nc, na := []int{0, 0, 1, 1, 1, 2, 3, 6}[r.IntN(8)], r.IntN(5)
+	if r.IntN(20) == 0 {
+		// long answer sections: a bound on the number of records examined shows
+		// only beyond it (seed C02-19: the first 16 records)
+		if r.IntN(2) == 0 {
+			nc = vutil.Pick(r, []int{15, 16, 17, 24, 40})
+		} else {
+			na = vutil.Pick(r, []int{16, 17, 20, 33})
+		}
+	}
+	for i := nc; i > 0; i-- {
 		t := vutil.Pick(r, c02Names)
 		rrs = append(rrs, &dns.CNAME{Hdr: hdr(owner, dns.TypeCNAME), Target: t + "."})
 		revealed = append(revealed, strings.ToLower(t))
 		owner = t + "."
 	}
-	na := r.IntN(5)
 	for i := 0; i < na; i++ {
 		if c.qtype == dns.TypeAAAA || (c.qtype != dns.TypeA && r.IntN(2) == 0) || r.IntN(12) == 0 {
 			s := vutil.Pick(r, c02V6)
@@ -165,6 +174,11 @@ func c02GenRule(r *rand.Rand, target string, c *c01Case) string {
 	case 6:
 		return "@@||" + target + "^" + mods
 	case 7:
+		if len(target) < 3 {
+			// a bare 2-byte pattern ("::") is outside the modelled rule grammar
+			return "||" + target + "^" + mods
+		}
+
 		return target + mods
 	case 8:
 		return "|" + target + "|" + mods
